@@ -498,7 +498,9 @@ func (in *Interp) renderObserved(v value) string {
 				b[i] = e.(uint8)
 			}
 		}
-		return string(b)
+		return strconv.Quote(string(b))
+	case string:
+		return strconv.Quote(v)
 	case []value:
 		parts := make([]string, len(v))
 		for i, e := range v {
